@@ -1222,7 +1222,15 @@ def r6e2_overlap_table(ctx):
     c05.e2_overlaps(Renamed(ctx, "C01.R6E2", "premise of R6's uniqueness argument: two ranges accepted on one node and method never share a version, because overlaps_with is exact on all order types"))
 
 
-RULES = [("C01.R1", r1_request_wiring), ("C01.R2", r2_one_endpoint), ("C01.R3", r3_walk_integrity), ("C01.R4", r4_key_normalisation),
+def r8_one_edge_kind_per_node(ctx):
+    """`exactly that endpoint`: the trie the walk relies on has one kind of outgoing edge per node and one variable name per edge, because
+    registration refuses every other combination.  This is C02.R2, re-evaluated here (adversary change C01-H merged the
+    VariableSingle / VariableRest arms of the single-variable case, so a `{path}` route landed in a `{path:.*}` node)."""
+    from . import c02
+    c02.r2_conflict_table(Renamed(ctx, "C01.R8", "a node is reached through one kind of edge only: registering a literal, a single variable or a wildcard where another kind (or another variable name) exists is refused"))
+
+
+RULES = [("C01.R8", r8_one_edge_kind_per_node), ("C01.R1", r1_request_wiring), ("C01.R2", r2_one_endpoint), ("C01.R3", r3_walk_integrity), ("C01.R4", r4_key_normalisation),
          ("C01.R5", r5_one_version_predicate), ("C01.R6", r6_order_independence), ("C01.R6E2", r6e2_overlap_table),
          ("C01.R7", r7_versioned_routes_need_versioned_server)]
 
@@ -1536,3 +1544,4 @@ SELFTEST = [
                 "                            String::from(\"no route found (no path in router)\"),\n                        )\n                    })?)\n                }")],
      "why": "behaviour-preserving: the literal arm reports its own miss with `?` (same 404) instead of leaving it to the ok_or_else behind the match"},
 ]
+LEVEL_TEXT += " Also (R8 = C02.R2): each trie node has one kind of outgoing edge, which the walk's per-kind arms rely on."
